@@ -20,7 +20,7 @@ func refChecksum(b []byte) byte {
 	for _, x := range b {
 		t += x
 	}
-	return byte(0x100 - int(t))
+	return -t // two's complement of the sum (its defining property is decided in C20)
 }
 
 func refLE16(b []byte) int    { return int(b[0]) | int(b[1])<<8 }
